@@ -2,6 +2,7 @@
 import math
 
 from vlib.engine import Case
+from . import e2e, geomgen as G
 from .geomgen import f32_bits, bits_f32, f32
 
 ID = "C07"
@@ -35,7 +36,7 @@ def oracle(q, v):
         if abs(ln - 1.0) > 1e-6:
             return ("octa-unit-length", f"decoded normal {d} has length {ln} for `{case.op}`")
         # the angle bound is stated for finite non-zero inputs (not denormal-length)
-        if norm_in > 1e-35 and all(abs(x) < 3e38 for x in v):
+        if norm_in > 1e-35 and all(abs(x) <= 3.4028234663852886e38 for x in v):
             a = [x / norm_in for x in v]
             cr = [a[1] * d[2] - a[2] * d[1], a[2] * d[0] - a[0] * d[2], a[0] * d[1] - a[1] * d[0]]
             ang = math.atan2(math.sqrt(sum(x * x for x in cr)), sum(x * y for x, y in zip(a, d)))
@@ -67,7 +68,10 @@ def rand_vec(rng):
     else:
         v = [rng.gauss(0, 1) for _ in range(3)]
     scale = 10.0 ** rng.choice([0, 0, 0, 0, -30, -20, -10, -3, 3, 10, 20, 30]) if rng.random() < 0.4 else 1.0
-    return [f32(x * scale) for x in v]
+    if rng.random() < 0.05:     # components close to the largest finite float: |x|+|y|+|z| exceeds FLT_MAX
+        m = max(abs(x) for x in v) or 1.0
+        scale = rng.choice([1.2e38, 2.5e38, 3.3e38]) / m
+    return [f32(max(-3.4e38, min(3.4e38, x * scale))) for x in v]
 
 
 def generate(rng, tier):
@@ -109,6 +113,30 @@ def generate(rng, tier):
         y = rng.randint(-(c - abs(x)), c - abs(x))
         z = (c - abs(x) - abs(y)) * rng.choice([1, -1])
         cases.append(Case(f"octa_tool {q} intvec {x} {y} {z}", tags=("intvec_random",)))
+    # end to end: normals through the codecs (sequential, Edgebreaker with delta / geometric-normal prediction),
+    # checked by the executable specification RoundTripOK (decoded == octahedral decode(encode(original)))
+    for _ in range(400 if tier == "thorough" else 80):
+        r = rng.random()
+        if r < 0.5:
+            g = G.rand_wall_mesh(rng)
+        else:
+            specs = [(G.POSITION, G.DT["f32"], 3, False, 0), (G.NORMAL, G.DT["f32"], 3, False, 1)]
+            g = G.rand_mesh(rng, rng.choice([6, 20, 60]), specs=specs) if r < 0.85 else G.rand_point_cloud(rng, 30, specs=specs)
+        if g.num_points == 0:
+            continue
+        q = rng.choice([2, 3, 5, 8, 8, 10, 12, 14, 16, 24, 30])
+        qp = rng.choice([8, 11, 14, 16])
+        toks = [f"q0={qp}", f"q1={q}", f"speed={rng.randint(0, 10)},{rng.randint(0, 10)}"]
+        if g.is_mesh:
+            toks.append(f"method={rng.choice([0, 1, 1, 1])}")
+            if rng.random() < 0.6:
+                toks.append("p1=6")
+        else:
+            toks.append("method=0")
+        info = {"expert": False, "req": {0: qp, 1: q}, "track": False, "skip": None}
+        c = e2e.make_case(g, toks, info, {"rt", "valid"}, tags=("e2e_normals_" + getattr(g, "family", "pc"),))
+        c.mtag = e2e.model_support_tag
+        cases.append(c)
     return cases
 
 
